@@ -38,7 +38,7 @@ AChains == IF Rich THEN ChainIds ELSE {"C1", "C2", "C3"}
 (* caching options of a provider-class registration: refresh_interval default / a number / None, with or without cache_by_key. *)
 (* They decide how auth data is cached, never where the provider applies.  The first registration of a history takes every   *)
 (* option, a later one the option that follows its predecessor's in the cycle (all pairs of options with every form, scope   *)
-(* and filter chain are covered without multiplying the family); thorough (Rich) lets every registration take every option.  *)
+(* and filter chain are covered without multiplying the family).                                                                *)
 CacheOpts == <<"default", "number", "none", "keyed", "keyed_number", "keyed_none">>
 CacheSet == {CacheOpts[j] : j \in 1..Len(CacheOpts)}
 NextOpt(k) == LET j == CHOOSE x \in 1..Len(CacheOpts) : CacheOpts[x] = k IN CacheOpts[(j % Len(CacheOpts)) + 1]
@@ -72,7 +72,7 @@ AuthRegister(s, f, c, k) ==
   /\ anreg < MaxAuth /\ Len(ahist) < MaxLen
   /\ f \in AForms(s)
   /\ f = "requests" <=> k = "-"
-  /\ (k # "-" /\ LastOpt # "-" /\ ~Rich) => k = NextOpt(LastOpt)
+  /\ (k # "-" /\ LastOpt # "-") => k = NextOpt(LastOpt)
   /\ (k # "-" /\ LastOpt = "-" /\ ~Rich) =>      \* ... and the schema order alternates with the option (both orders for every scope, form, chain)
         aorder = (IF (CHOOSE x \in 1..Len(CacheOpts) : CacheOpts[x] = k) % 2 = 1 THEN "AB" ELSE "BA")
   /\ s = "test" => providers["test"] = << >>        \* `apply` can decorate a test function once
